@@ -300,3 +300,198 @@ Definition exemplar_okb (e : ref_exemplar) :=
 Definition metadata_okb (m : ref_metadata) :=
   u64_okb (md_ref m) && (md_type m <? 256) && str_okb (md_unit m) && str_okb (md_help m).
 Definition mmap_okb (m : ref_mmap) := u64_okb (mm_ref m) && u64_okb (mm_mref m).
+
+(* ================================================================ native histograms *)
+(* histogram.IsCustomBucketsSchema / IsKnownSchema (generic.go): custom = -53, known =
+   custom or the reserved exponential range -9..52; the supported exponential range is -4..8 *)
+Definition is_custom (s : Z) : bool := (s =? -53)%Z.
+Definition is_known_schema (s : Z) : bool := is_custom s || ((-9 <=? s) && (s <=? 52))%Z.
+Definition needs_reduce (s : Z) : bool := ((8 <? s) && (s <=? 52))%Z.
+
+(* `buf.PutUvarint(len(xs)); for _, x := range xs {...}` *)
+Definition enc_list {X} (f : X -> list N) (l : list X) : list N :=
+  put_uvarint (N.of_nat (length l)) ++ flat_map f l.
+(* `l := buf.Uvarint(); if l > 0 { xs = make([]T, l) }; for i := range xs {...}`
+   (l <= 0: no iteration.  A huge l makes the Go code allocate/loop l times before the sticky
+   error is looked at; the model short-circuits — same result, not the same resources.) *)
+Definition dec_list {X} (d : dec X) : dec (list X) := n <- d_uvarint_int ;; drepeat (Z.to_nat n) d.
+
+Definition enc_span (s : span) : list N := put_varint (sp_off s) ++ put_uvarint (sp_len s).
+Definition dec_span : dec span := o <- d_varint64 ;; l <- d_uvarint32 ;; dret (mkSpan (wrap32 o) l).
+
+(* EncodeHistogram *)
+Definition enc_hist (h : hist) : list N :=
+  [h_hint h] ++ put_varint (h_schema h) ++ put_be64 (h_zt h) ++
+  put_uvarint (h_zc h) ++ put_uvarint (h_count h) ++ put_be64 (h_sum h) ++
+  enc_list enc_span (h_ps h) ++ enc_list enc_span (h_ns h) ++
+  enc_list put_varint (h_pb h) ++ enc_list put_varint (h_nb h) ++
+  (if is_custom (h_schema h) then enc_list put_be64 (h_cv h) else []).
+(* DecodeHistogram *)
+Definition dec_hist : dec hist :=
+  hint <- d_byte ;; sch <- d_varint64 ;; zt <- d_be64 ;;
+  zc <- d_uvarint64 ;; cnt <- d_uvarint64 ;; sum <- d_be64 ;;
+  ps <- dec_list dec_span ;; ns <- dec_list dec_span ;;
+  pb <- dec_list d_varint64 ;; nb <- dec_list d_varint64 ;;
+  cv <- (if is_custom (wrap32 sch) then dec_list d_be64 else dret []) ;;
+  dret (mkHist hint (wrap32 sch) zt zc cnt sum ps ns pb nb cv).
+
+(* EncodeFloatHistogram / DecodeFloatHistogram *)
+Definition enc_fhist (h : fhist) : list N :=
+  [fh_hint h] ++ put_varint (fh_schema h) ++ put_be64 (fh_zt h) ++
+  put_be64 (fh_zc h) ++ put_be64 (fh_count h) ++ put_be64 (fh_sum h) ++
+  enc_list enc_span (fh_ps h) ++ enc_list enc_span (fh_ns h) ++
+  enc_list put_be64 (fh_pb h) ++ enc_list put_be64 (fh_nb h) ++
+  (if is_custom (fh_schema h) then enc_list put_be64 (fh_cv h) else []).
+Definition dec_fhist : dec fhist :=
+  hint <- d_byte ;; sch <- d_varint64 ;; zt <- d_be64 ;;
+  zc <- d_be64 ;; cnt <- d_be64 ;; sum <- d_be64 ;;
+  ps <- dec_list dec_span ;; ns <- dec_list dec_span ;;
+  pb <- dec_list d_be64 ;; nb <- dec_list d_be64 ;;
+  cv <- (if is_custom (wrap32 sch) then dec_list d_be64 else dret []) ;;
+  dret (mkFHist hint (wrap32 sch) zt zc cnt sum ps ns pb nb cv).
+
+(* after DecodeHistogram: unknown schema -> skipped with a warning (`continue`); schema in 9..52
+   -> ReduceResolution, which is NOT modelled (EOther marks the unmodelled path; the theorems
+   exclude it and the harness does not generate it) *)
+Definition keep_schema {A St} (schema : Z) (x : A) (s : St) : dec (list A * St) :=
+  if negb (is_known_schema schema) then dret ([], s)
+  else if needs_reduce schema then dfail EOther
+  else dret ([x], s).
+
+(* ---- generic over the payload (int / float histogram) *)
+Record rsample (H : Type) := mkRS { r_ref : N; r_st : Z; r_t : Z; r_h : H }.
+Arguments mkRS {H}.
+Arguments r_ref {H}. Arguments r_st {H}. Arguments r_t {H}. Arguments r_h {H}.
+
+Section HistRecords.
+  Context {H : Type} (h_enc : H -> list N) (h_dec : dec H) (schema_of : H -> Z).
+  Notation rsample := (rsample H).
+  Definition r_custom (x : rsample) : bool := is_custom (schema_of (r_h x)).
+
+  (* -- V1: BE64 base ref/time of histograms[0], varint deltas to it; custom-bucket ones
+        are skipped by the exponential encoder and returned to the caller *)
+  Definition enc_rs_v1 (first x : rsample) : list N :=
+    put_varint (sub64 (to_i64 (r_ref x)) (to_i64 (r_ref first))) ++
+    put_varint (sub64 (r_t x) (r_t first)) ++ h_enc (r_h x).
+  Definition enc_rs_v1_skip (first : rsample) (_ : unit) (x : rsample) : list N * unit :=
+    if r_custom x then ([], tt) else (enc_rs_v1 first x, tt).
+  (* Encoder.histogramSamplesV1 / floatHistogramSamplesV1 : (record, custom-bucket leftovers);
+     the record is EMPTY (not even a type byte: buf.Reset()) when every sample was custom *)
+  Definition enc_hists_v1 (typ : N) (l : list rsample) : list N * list rsample :=
+    match l with
+    | [] => ([typ], [])
+    | first :: _ =>
+        let custom := filter r_custom l in
+        let body := typ :: put_be64 (r_ref first) ++ put_be64 (to_u64 (r_t first)) ++
+                    eloop (enc_rs_v1_skip first) tt l in
+        (if Nat.eqb (length l) (length custom) then [] else body, custom)
+    end.
+  (* Encoder.customBucketsHistogramSamplesV1: encodes everything it is given *)
+  Definition enc_cbhists_v1 (typ : N) (l : list rsample) : list N :=
+    typ ::
+    match l with
+    | [] => []
+    | first :: _ =>
+        put_be64 (r_ref first) ++ put_be64 (to_u64 (r_t first)) ++
+        eloop (fun (_ : unit) x => (enc_rs_v1 first x, tt)) tt l
+    end.
+
+  Definition dec_rs_v1 (baseRef : N) (baseTime : Z) (_ : unit) : dec (list rsample * unit) :=
+    dref <- d_varint64 ;; dtime <- d_varint64 ;; h <- h_dec ;;
+    keep_schema (schema_of h) (mkRS (addu64 baseRef (to_u64 dref)) 0 (add64 baseTime dtime) h) tt.
+  Definition dec_hists_v1 (r : list N) : res (list rsample) :=
+    match r with
+    | [] => Ok []
+    | _ :: _ =>
+        match (b <- d_be64 ;; t <- d_be64 ;; dret (b, to_i64 t)) r with
+        | Err e => Err e
+        | Ok ((b, t), r') => dloop (length r') (dec_rs_v1 b t) tt r'
+        end
+    end.
+
+  (* -- V2: varint first ref/T/ST, then per sample delta to prev ref, delta to first T, ST marker *)
+  Definition enc_rs_v2 (st : option (rsample * rsample)) (x : rsample) : list N * option (rsample * rsample) :=
+    match st with
+    | None =>
+        (put_varint (to_i64 (r_ref x)) ++ put_varint (r_t x) ++ put_varint (r_st x) ++ h_enc (r_h x),
+         Some (x, x))
+    | Some (first, prev) =>
+        (put_varint (sub64 (to_i64 (r_ref x)) (to_i64 (r_ref prev))) ++
+         put_varint (sub64 (r_t x) (r_t first)) ++
+         write_st_marker (r_st x) (r_st first) (r_st prev) ++ h_enc (r_h x),
+         Some (first, x))
+    end.
+  Definition enc_hists_v2 (typ : N) (l : list rsample) : list N := typ :: eloop enc_rs_v2 None l.
+
+  Definition dec_rs_v2 (firstRef : N) (firstT firstST : Z) (st : option (N * Z))
+    : dec (list rsample * option (N * Z)) :=
+    match st with
+    | None =>
+        h <- h_dec ;;
+        keep_schema (schema_of h) (mkRS firstRef firstST firstT h) (Some (firstRef, firstST))
+    | Some (prevRef, prevST) =>
+        dref <- d_varint64 ;; dt <- d_varint64 ;; st <- read_st_marker prevST firstST ;;
+        h <- h_dec ;;
+        let ref := to_u64 (add64 (to_i64 prevRef) dref) in
+        keep_schema (schema_of h) (mkRS ref st (add64 firstT dt) h) (Some (ref, st))
+    end.
+  Definition dec_hists_v2 (r : list N) : res (list rsample) :=
+    match r with
+    | [] => Ok []
+    | _ :: _ =>
+        match (fr <- d_varint64 ;; ft <- d_varint64 ;; fst <- d_varint64 ;; dret (to_u64 fr, ft, fst)) r with
+        | Err e => Err e
+        | Ok ((fr, ft, fst), r') => dloop (length r') (dec_rs_v2 fr ft fst) None r'
+        end
+    end.
+End HistRecords.
+
+(* Encoder.HistogramSamples / CustomBucketsHistogramSamples / Decoder.HistogramSamples *)
+Definition enc_histogram_samples (enableST : bool) (l : list (rsample hist)) : list N * list (rsample hist) :=
+  if enableST then (enc_hists_v2 enc_hist tHistogramSamplesV2 l, [])
+  else enc_hists_v1 enc_hist h_schema tHistogramSamples l.
+Definition enc_cb_histogram_samples (enableST : bool) (l : list (rsample hist)) : list N :=
+  if enableST then enc_hists_v2 enc_hist tHistogramSamplesV2 l
+  else enc_cbhists_v1 enc_hist tCustomBucketsHistogramSamples l.
+Definition dec_histogram_samples : list N -> res (list (rsample hist)) :=
+  with_type (fun t => if (t =? tHistogramSamples) || (t =? tCustomBucketsHistogramSamples)
+                      then Some (dec_hists_v1 dec_hist h_schema)
+                      else if t =? tHistogramSamplesV2 then Some (dec_hists_v2 dec_hist h_schema) else None).
+
+Definition enc_float_histogram_samples (enableST : bool) (l : list (rsample fhist)) : list N * list (rsample fhist) :=
+  if enableST then (enc_hists_v2 enc_fhist tFloatHistogramSamplesV2 l, [])
+  else enc_hists_v1 enc_fhist fh_schema tFloatHistogramSamples l.
+Definition enc_cb_float_histogram_samples (enableST : bool) (l : list (rsample fhist)) : list N :=
+  if enableST then enc_hists_v2 enc_fhist tFloatHistogramSamplesV2 l
+  else enc_cbhists_v1 enc_fhist tCustomBucketsFloatHistogramSamples l.
+Definition dec_float_histogram_samples : list N -> res (list (rsample fhist)) :=
+  with_type (fun t => if (t =? tFloatHistogramSamples) || (t =? tCustomBucketsFloatHistogramSamples)
+                      then Some (dec_hists_v1 dec_fhist fh_schema)
+                      else if t =? tFloatHistogramSamplesV2 then Some (dec_hists_v2 dec_fhist fh_schema) else None).
+
+(* what decoding gives back for one histogram: custom values survive only for the custom schema *)
+Definition canon_hist (h : hist) : hist :=
+  mkHist (h_hint h) (h_schema h) (h_zt h) (h_zc h) (h_count h) (h_sum h) (h_ps h) (h_ns h) (h_pb h) (h_nb h)
+         (if is_custom (h_schema h) then h_cv h else []).
+Definition canon_fhist (h : fhist) : fhist :=
+  mkFHist (fh_hint h) (fh_schema h) (fh_zt h) (fh_zc h) (fh_count h) (fh_sum h) (fh_ps h) (fh_ns h) (fh_pb h) (fh_nb h)
+          (if is_custom (fh_schema h) then fh_cv h else []).
+(* a decoded batch: unknown schemas are dropped; V1 has no ST *)
+Definition canon_rs {H} (canon_h : H -> H) (schema_of : H -> Z) (v2 : bool) (l : list (rsample H)) : list (rsample H) :=
+  map (fun x => mkRS (r_ref x) (if v2 then r_st x else 0%Z) (r_t x) (canon_h (r_h x)))
+      (filter (fun x => is_known_schema (schema_of (r_h x))) l).
+
+(* equality *)
+Definition span_eqb (a b : span) := (sp_off a =? sp_off b)%Z && (sp_len a =? sp_len b).
+Definition hist_eqb (a b : hist) : bool :=
+  (h_hint a =? h_hint b) && (h_schema a =? h_schema b)%Z && (h_zt a =? h_zt b) && (h_zc a =? h_zc b) &&
+  (h_count a =? h_count b) && (h_sum a =? h_sum b) &&
+  list_eqb span_eqb (h_ps a) (h_ps b) && list_eqb span_eqb (h_ns a) (h_ns b) &&
+  list_eqb Z.eqb (h_pb a) (h_pb b) && list_eqb Z.eqb (h_nb a) (h_nb b) && list_eqb N.eqb (h_cv a) (h_cv b).
+Definition fhist_eqb (a b : fhist) : bool :=
+  (fh_hint a =? fh_hint b) && (fh_schema a =? fh_schema b)%Z && (fh_zt a =? fh_zt b) && (fh_zc a =? fh_zc b) &&
+  (fh_count a =? fh_count b) && (fh_sum a =? fh_sum b) &&
+  list_eqb span_eqb (fh_ps a) (fh_ps b) && list_eqb span_eqb (fh_ns a) (fh_ns b) &&
+  list_eqb N.eqb (fh_pb a) (fh_pb b) && list_eqb N.eqb (fh_nb a) (fh_nb b) && list_eqb N.eqb (fh_cv a) (fh_cv b).
+Definition rs_eqb {H} (heqb : H -> H -> bool) (a b : rsample H) : bool :=
+  (r_ref a =? r_ref b) && (r_st a =? r_st b)%Z && (r_t a =? r_t b)%Z && heqb (r_h a) (r_h b).
